@@ -71,6 +71,49 @@ def modelRun (dev : Dev) (p : Path) (xty : Ty) (c : Case) : Except Err Table :=
     pure (groups.map (·.1))
   | _ => .error (.unsupported "statement shape outside the C21 model")
 
+/-! ### the parallel partial-state path, along the engine's own chunking -/
+
+/-- cut the rows of t0 into its batches -/
+def splitBatches (rows : Table) : List Nat → List Table
+  | [] => if rows.isEmpty then [] else [rows]
+  | n :: ns => rows.take n :: splitBatches (rows.drop n) ns
+
+/-- Rust `slice.chunks(k)` -/
+def chunksOf {α} (k : Nat) (l : List α) : List (List α) :=
+  let rec go (fuel : Nat) (l : List α) : List (List α) :=
+    match fuel with
+    | 0 => []
+    | fuel + 1 => if l.isEmpty then [] else l.take k :: go fuel (l.drop k)
+  if k == 0 then [l] else go l.length l
+
+/-- `aggregate_batches_parallel` (hash_agg.rs 1187): `effective_threads = min(threads, #batches)`, the batches are cut into
+    `chunks(ceil(#batches / effective_threads))`, every chunk builds a partial hash table (one accumulator state per group
+    and aggregate, groups absent from the chunk have no entry), the partial tables are merged left to right with
+    `merge_accumulator_states`.  Model: per group and aggregate `(hash …).run (MTree.comb <args of each chunk that holds the group>)`. -/
+def modelRunPar (dev : Dev) (xty : Ty) (c : Case) (cuts : List Nat) (threads : Nat) : Except Err Table :=
+  match c.plan, c.tables with
+  | .project _ es (.agg keys aggs q), t0 :: rest => do
+    let batches := splitBatches t0 cuts
+    let eff := min threads batches.length
+    let chunkSize := if eff == 0 then 1 else (batches.length + eff - 1) / eff
+    let chunks := chunksOf chunkSize batches
+    -- rows of every chunk after the statement's WHERE (evaluated batch by batch, as the engine does)
+    let keyedChunks ← chunks.mapM fun ch => do
+      let parts ← ch.mapM fun b => do
+        let rows ← Spec.run fo fns (b :: rest) q [] []
+        keyedOf keys aggs rows
+      pure parts.flatten
+    let all := keyedChunks.flatten
+    let eaggs : List Agg := ((List.range aggs.length).zip aggs).map fun (j, a) =>
+      { fn := a.fn, distinct := a.distinct, ty := colTy xty (all.map fun kr => kr.2.getD j .null) }
+    let groupKeys : List Row := if keys.isEmpty then [[]] else (Spec.groupBy all).map (·.1)
+    groupKeys.mapM fun k => do
+      let perChunk : List Table := (keyedChunks.map fun ch => (ch.filter fun kr => kr.1 == k).map (·.2)).filter (fun l => !l.isEmpty)
+      let vals := ((List.range eaggs.length).zip eaggs).map fun (j, a) =>
+        (hash dev fo a).run (MTree.comb (perChunk.map fun rows => rows.map fun (r : Row) => r.getD j .null))
+      evalList cx0 [k ++ vals] es
+  | _, _ => .error (.unsupported "statement shape outside the C21 parallel model")
+
 /-- listed findings with a deviation switch: (id, switch setter, needs the error outcome?) -/
 def switches : List (String × (Dev → Dev)) :=
   -- repaired in /repo and therefore no attribution targets any more: F1 sumDistinctEmptyZero (2b108eb), F5 denseRefusesNullKeys
@@ -205,7 +248,11 @@ def handler : Driver.Handler := fun cj i => do
   let v ← handlerWith (attrC21 path xty msg neutral cat pqQualified) cj i
   let c ← caseOfJson cj
   let o ← outcomeOfJson i
-  let m := modelRun {} path xty c
+  let cuts : List Nat := match cat.getArrVal? 0 with
+    | .ok t0 => (match t0.getObjValAs? (List Nat) "cuts" with | .ok l => l | .error _ => [])
+    | .error _ => []
+  let threads := (cmeta.getObjValAs? Nat "threads").toOption.getD 4
+  let m := if pathS == "parallel" then modelRunPar {} xty c cuts threads else modelRun {} path xty c
   let k := match m, o with
     | .ok t, .ok out => bagEq out (normTable t)
     | .error _, _ => true          -- Spec-level error (overflow …): K not applicable, the case is skipped by O as well
